@@ -13,6 +13,9 @@ VERIF = os.path.dirname(os.path.dirname(os.path.abspath(__file__)))
 SPEC = os.path.join(VERIF, "spec")
 
 
+EXTRA_JOPTS = []
+
+
 class TLCError(Exception):
     pass
 
@@ -46,7 +49,7 @@ def run(workdir, module, cfg, spec_dirs, workers="auto", timeout=600, extra_file
         if os.path.abspath(src) != os.path.abspath(os.path.join(workdir, name)):
             shutil.copy(src, os.path.join(workdir, name))
     meta = os.path.join(workdir, "meta_" + cfg.replace(".cfg", "") + "_%d" % int(time.time() * 1000))
-    jopts = ["-Xss512m", "-Xmx" + heap, "-XX:+UseParallelGC", "-Djava.io.tmpdir=" + workdir]
+    jopts = ["-Xss512m", "-Xmx" + heap, "-XX:+UseParallelGC", "-Djava.io.tmpdir=" + workdir] + list(EXTRA_JOPTS)
     if dfs:
         jopts.append("-Dtlc2.tool.queue.IStateQueue=StateDeque")
     cmd = ["java"] + jopts + ["-cp", _classpath(), "tlc2.TLC", "-metadir", meta,
